@@ -204,10 +204,10 @@ def main() -> int:
     thorough = common.tier() == "thorough"
     seeds = enum_exps.c01_family(False)[:: (60 if not thorough else 10)]
     seeds += [gen_exps.random_program(rng, 3) for _ in range(150 if not thorough else 1500)]
-    seeds += [t["files"]["main.exps"] for t in (gen_macros.dag_program(3, {(0, 1), (1, 2)}, (2, 0, 1), rng, rich=True, nparams=[1, 2, 0]) for _ in range(30 if not thorough else 300))]
+    seeds += [t["files"]["main.exps"] for t in (gen_macros.dag_program(3, {(0, 1), (1, 2)}, (2, 0, 1), rng, rich=True, nparams=[1, 2, 0]) for _ in range(30 if not thorough else 1000))]
     cases = [{"src": s, "steps": plan(rng, s, rng.randint(3, 8)), "cumulative": True} for s in seeds]
     # exhaustive layer: every separator at every token boundary of a few seeds (each from the base spelling)
-    for s in seeds[:3] + seeds[-2:] if not thorough else seeds[:20]:
+    for s in seeds[:3] + seeds[-2:] if not thorough else seeds[:60]:
         toks = tokenize(s)
         punct = set(PUNCT.values())
         steps = []
